@@ -295,6 +295,64 @@ def run_jacobian(task):
         Config.config.update(defaults)
 
 
+def run_jacobian_fd(task):
+    """symbolic Jacobian of systems with function atoms (tanh, exp, Heaviside, max, ...): every entry evaluated at random
+    points (away from the jumps) against central finite differences of the USER's right-hand sides, parsed independently"""
+    import random
+    import sympy
+    import odetoolbox
+    from odetoolbox.config import Config
+    from . import impl_worker
+    defaults = dict(Config.config)
+    ns = {}
+    exec("from sympy import *", ns)
+    ns.update({"e": sympy.E, "max": sympy.Max, "min": sympy.Min})
+    for nm_ in ("I", "S", "N", "O", "Q", "C"):        # single capitals are ordinary names (I is a current), not SymPy's constants
+        ns.pop(nm_, None)
+    try:
+        try:
+            solvers, sys_, shapes = odetoolbox._analysis(task["indict"], disable_stiffness_check=True, **task.get("flags", {}))
+        except BaseException as ex:   # noqa
+            return {"outcome": impl_worker.classify_exception(ex), "detail": str(ex)[:200]}
+        xs = [str(v) for v in sys_.x_]
+        f = {}
+        for d in task["indict"]["dynamics"]:
+            lhs, rhs = d["expression"].split("=")
+            nm, order = lhs.strip().replace("'", ""), lhs.count("'")
+            for k in range(order - 1):
+                f[nm + "__d" * k] = sympy.Symbol(nm + "__d" * (k + 1))
+            f[nm + "__d" * (order - 1)] = sympy.parsing.sympy_parser.parse_expr(rhs.replace("'", "__d"), global_dict=dict(ns))
+        J = sys_.get_jacobian_matrix()
+        rng = random.Random(task.get("pseed", 1))
+        free = set()
+        for ex in f.values():
+            free |= ex.free_symbols
+        worst, detail = 0.0, None
+        for trial in range(task.get("npoints", 6)):
+            pt = {sym: rng.uniform(0.3, 1.7) * rng.choice([1, 1, -1]) for sym in free}
+            sub = {sym: sympy.Float(v, 30) for sym, v in pt.items()}
+            for i, xi in enumerate(xs):
+                for j, xj in enumerate(xs):
+                    sj = sympy.Symbol(xj)
+                    h = sympy.Float("1e-10", 30)
+                    up, dn = dict(sub), dict(sub)
+                    up[sj] = sub.get(sj, sympy.Float(0.7, 30)) + h
+                    dn[sj] = sub.get(sj, sympy.Float(0.7, 30)) - h
+                    fd = (f[xi].evalf(30, subs=up) - f[xi].evalf(30, subs=dn)) / (2 * h)
+                    try:
+                        got = sympy.sympify(J[i, j]).evalf(30, subs=sub)
+                        err = abs(complex(got) - complex(fd)) / (1 + abs(complex(fd)))
+                    except Exception as ex:   # noqa
+                        return {"outcome": "Ok", "worst": 1.0, "detail": "entry (%s, %s) = %s is not numeric at %s (%s)" % (xi, xj, J[i, j], pt, ex)}
+                    if err > worst:
+                        worst = float(err)
+                        detail = "d(%s')/d(%s): get_jacobian_matrix gives %s = %s, finite differences of the input give %s at %s" % (xi, xj, J[i, j], got, fd, {str(k): round(v, 4) for k, v in pt.items()})
+        return {"outcome": "Ok", "worst": worst, "detail": detail, "x": xs}
+    finally:
+        Config.config.clear()
+        Config.config.update(defaults)
+
+
 def run_numjac(task):
     """MixedIntegrator.numerical_jacobian vs central finite differences of MixedIntegrator.step
     (through the pygsl stand-in)"""
